@@ -38,7 +38,7 @@ def items(tier, seed):
     hi = 5 if tier == "quick" else 7
     for d in range(-1, hi + 1):
         for n in range(0, hi + 1):
-            for route in ("list", "tuple", "quantity", "cwq", "empty_values"):
+            for route in ("list", "tuple", "quantity", "cwq", "empty_values", "points2", "points3", "points_cwq"):
                 out.append({"k": "real", "route": route, "d": d, "n": n})
         out.append({"k": "real", "route": "category", "d": d, "n": 0})
         out.append({"k": "real", "route": "empty", "d": d, "n": 0})
@@ -51,6 +51,8 @@ def items(tier, seed):
         out.append({"k": "pickle", "d": d})
         for i in range(-1, d + 1):
             out.append({"k": "chidx", "d": d, "i": i})
+            out.append({"k": "chidx", "d": d, "i": i, "cont": "numpy"})
+            out.append({"k": "chidx", "d": d, "i": i, "cont": "tuple"})
     out[0]["canary"] = True
     random.Random(seed).shuffle(out)
     return out
@@ -162,17 +164,31 @@ def run(cfg, V):
             fa = FixedArray.CreateWithQuantity(q, list(vals), dimension=d)
         elif route == "empty_values":
             fa = FixedArray.CreateEmptyArray(d, list(vals))
+        elif route in ("points2", "points3"):
+            w = 2 if route == "points2" else 3
+            fa = FixedArray(d, "length", [tuple(vals[(j + t) % max(len(vals), 1)] if vals else 0.0 for t in range(w)) for j in range(n)], "m")
+        elif route == "points_cwq":
+            fa = FixedArray.CreateWithQuantity(q, [(v, v) for v in vals], dimension=d)
         elif route == "category":
             fa = FixedArray(d, "length")
         else:
             fa = FixedArray.CreateEmptyArray(d)
         return _fa_obs(fa)
     src_vals = list(xs[:d])
+    if cfg.get("cont") == "numpy":
+        import numpy
+        from symx.shims import SymArray
+
+        src_vals = SymArray(src_vals) if core.is_sym(src_vals[0]) else numpy.array(src_vals, dtype=float)
+    elif cfg.get("cont") == "tuple":
+        src_vals = tuple(src_vals)
     snap = list(src_vals)
     src = FixedArray(d, src_vals, "m")
 
     def src_ok():
-        return src.GetValues() is src_vals and len(src_vals) == d and all(a is b for a, b in zip(src_vals, snap)) and src.dimension == d and src.GetUnit() == "m"
+        from .common import _atom
+
+        return src.GetValues() is src_vals and len(src_vals) == d and [_atom(a) for a in src_vals] == [_atom(a) for a in snap] and src.dimension == d and src.GetUnit() == "m"
 
     try:
         if k == "arith":
